@@ -840,7 +840,12 @@ pub struct Mutant {
     pub format: Format,
 }
 
-const DEGENERATE: [(&str, &str); 18] = [
+const DEGENERATE: [(&str, &str); 22] = [
+    // near misses of the documented units: a plural too many, a unit cut short, two units
+    ("trigger.interval", "2 hourss"),
+    ("trigger.interval", "1 secondsS"),
+    ("trigger.interval", "3 minute s"),
+    ("trigger.limit", "10 kbs"),
     ("roller.count", "0"),
     ("trigger.limit", "0"),
     ("roller.base", "4294967295"),
